@@ -201,7 +201,8 @@ func x01ReplayJoin(env *Env, c *x01Case, i int, bindir, dir string, pick bool) {
 			compare("lib", got, "MakeJoinWorker")
 		}
 	}
-	if bindir == "" || !(pick || len(c.By) == 0) {
+	// command level: the seeded share, every case that relies on the default key, and a quarter of the --by l=r cases
+	if bindir == "" || !(pick || len(c.By) == 0 || (c.Byname == "ab" && i%4 == 0)) {
 		return
 	}
 	mainf, partf, ok := x01JoinFiles(dir, "j"+strconv.Itoa(i), c.Flags, []x01Rec{c.Main}, c.Part)
@@ -288,6 +289,9 @@ func x01JoinScenario(rng *rand.Rand, big bool) (by [][]string, flags []int, main
 		v := rng.Intn(n) + 1
 		switch key {
 		case "sample":
+			if rng.Intn(15) == 0 {
+				return []string{"s:NA", "s:"}[rng.Intn(2)] // an NA marker, an empty cell: values like any other
+			}
 			return "s:S" + strconv.Itoa(v)
 		case "k", "num":
 			if kind == 0 {
